@@ -94,7 +94,12 @@ def configs(draw, full=False):
 
 @st.composite
 def cases(draw, full=False):
-    return dict(prog=draw(G.mixed_programs(max_nodes=4)), configs=draw(configs(full)))
+    prog = draw(st.one_of(
+        G.mixed_programs(max_nodes=4),
+        # shapes in which the order of job completions could leak into grouped/merged values
+        G.template_programs(shapes=["combine_then_consume", "fan_in_independent", "three_way_join",
+                                    "two_upstreams_own_split_combine", "own_plus_upstream_combine"])))
+    return dict(prog=prog, configs=draw(configs(full)))
 
 
 def run(sh):
